@@ -26,6 +26,8 @@ import (
 	"strconv"
 	"strings"
 	"time"
+	fakejson "verifharness/fake/json"
+	faketime "verifharness/fake/time"
 
 	"github.com/ozanh/ugo"
 	ufmt "github.com/ozanh/ugo/stdlib/fmt"
@@ -88,6 +90,9 @@ func init() {
 		// pointers (typed nil and non-nil) to types that DO have converters, and double pointers:
 		// unsupported, must be an error and never a panic
 		(*time.Duration)(nil), &cvDur, (*json.RawMessage)(nil), &cvRaw, (**utime.Time)(nil), (**utime.Location)(nil),
+		// types of OTHER packages that are also called time / json and have the registered types' names
+		faketime.Duration(5), faketime.Time{Sec: 1}, &faketime.Time{}, (*faketime.Location)(nil), &faketime.Location{Name: "x"}, faketime.Month(2),
+		fakejson.RawMessage("{}"), fakejson.RawMessage(nil), fakejson.Number("1"),
 		(*string)(nil), (*[]byte)(nil), (*[]any)(nil), (*map[string]any)(nil), (*bool)(nil), (*float64)(nil),
 	}
 }
